@@ -53,6 +53,8 @@ struct sk_obj {
   int pathid;              /* for OK_FILE: offset of path in K->str */
   int abspath, fsflags;    /* for OK_FILE: the name resolved against the working directory at open time, and what the file system said of it */
   long total_w, total_r;
+  int direct;              /* a pipe in packet mode (O_DIRECT): every write is a packet, a read takes ONE packet and what of it does not fit is gone */
+  unsigned short pk[128]; int pkh, pkn;
 };
 struct sk_ofd {
   int used, obj, acc /*0 R 1 W 2 RW*/, nonblock, ref;
